@@ -61,36 +61,37 @@ def _retained_history(path, seed, big):
 
 
 def retained_results(ctx, tmpdir):
-    import multiprocessing as mp
+    import json
+    import subprocess
+    import sys
     rng = ctx.rng
+    here = os.path.dirname(os.path.dirname(os.path.abspath(__file__)))
+    repo = os.environ.get("NIR_REPO", "/repo")
     for i in range(ctx.n(6, 16)):
         big = i % 2 == 0
         seed = rng.randrange(2 ** 31)
         path = os.path.join(tmpdir, f"keep{i}.nir")
         case = {"op": "retained_results", "seed": seed, "arrays_over_1MiB": big}
         ctx.case(case); ctx.count("retained_histories"); ctx.count("retained_big" if big else "retained_small")
-        parent, child = mp.Pipe(duplex=False)
-
-        def work(conn=child, path=path, seed=seed, big=big):
-            try:
-                conn.send(("done", _retained_history(path, seed, big)))
-            except BaseException as e:  # noqa
-                conn.send(("raised", f"{type(e).__name__}: {e}"))
-        p = mp.get_context("fork").Process(target=work)
-        p.start()
-        p.join(120)
-        msg = parent.recv() if parent.poll() else None
-        if p.is_alive():
-            p.kill()
+        code = ("import sys, json, warnings; warnings.simplefilter('ignore'); sys.path.insert(0, %r); sys.path.insert(0, %r);"
+                "from props.c15 import _retained_history; print(json.dumps({'r': _retained_history(%r, %d, %s)}))"
+                % (repo, here, path, seed, big))
+        try:
+            p = subprocess.run([sys.executable, "-c", code], stdout=subprocess.PIPE, stderr=subprocess.PIPE, timeout=180)
+        except subprocess.TimeoutExpired:
             ctx.violate(case, "write/read history did not finish", {"site": "retained", "what": "hang"})
-        elif msg is None:
+            continue
+        out = p.stdout.decode("utf8", "replace").strip().splitlines()
+        if p.returncode < 0:
             ctx.violate(case, "the process was killed while running a write/read/overwrite history on one path",
-                        {"site": "retained", "what": "killed"}, observed={"exitcode": p.exitcode})
-        elif msg[0] == "raised":
+                        {"site": "retained", "what": "killed"}, observed={"signal": -p.returncode})
+        elif p.returncode != 0 or not out:
             ctx.violate(case, "a call of the write/read/overwrite history raised", {"site": "retained", "what": "raised"},
-                        observed=msg[1])
-        elif msg[1]:
-            ctx.violate(case, msg[1], {"site": "retained", "what": "changed"})
+                        observed=p.stderr.decode("utf8", "replace")[-400:])
+        else:
+            msg = json.loads(out[-1])["r"]
+            if msg:
+                ctx.violate(case, msg, {"site": "retained", "what": "changed"})
 
 
 def run(ctx):
